@@ -114,13 +114,13 @@ Section GenericBuild.
   Proof.
     intros [one hd tl] [(Hne & Hok & Hadj) Htl]. simpl in *. unfold sent_tree, denote_gsent. simpl.
     destruct one.
-    - eapply eval_ok_ext; [|apply (eval_left_nest _ ((s_slash, denote_term denote_item hd) :: tail_dens tl)
+    - eapply eval_ok_ext; [|apply (eval_left_nest ((s_slash, term_tree hd) :: tail_trees tl) ((s_slash, denote_term denote_item hd) :: tail_dens tl)
                                       (Leaf [c_one]) (fun _ => 0))].
       + intro k. simpl. rewrite sum_tail_dens. change (sign_of_op s_slash) with (-1). ring.
       + constructor; [|apply tail_trees_ok; assumption].
         repeat split; [right; reflexivity|]. simpl. apply term_eval; assumption.
       + apply eval_one_leaf.
-    - eapply eval_ok_ext; [|apply (eval_left_nest _ (tail_dens tl) _ (denote_term denote_item hd))].
+    - eapply eval_ok_ext; [|apply (eval_left_nest (tail_trees tl) (tail_dens tl) (term_tree hd) (denote_term denote_item hd))].
       + intro k. simpl. rewrite sum_tail_dens. ring.
       + apply tail_trees_ok; assumption.
       + apply term_eval; assumption.
